@@ -2022,6 +2022,10 @@ func (mvcc *MVCCLevelDB) doRawDeleteRange(cf string, startKey, endKey []byte) er
 		return errors.Errorf("%s not exist", cf)
 	}
 
+	if len(endKey) == 0 {
+		// an empty end key means unbounded; a non-nil empty Limit would make the range empty
+		endKey = nil
+	}
 	batch := &leveldb.Batch{}
 	iter := db.NewIterator(&util.Range{
 		Start: startKey,
